@@ -289,8 +289,15 @@ def _p13(ctx):
                 for s in g.deep_walk(g.call_args(n)[0]):
                     if s[0] == 'fld' and s[2] == 'ReadCursor.last_pos':
                         src_ok = True
-            head_cmp = any(any(a.on('MultiQueue.head/') for a in x.loads_in(g.switch_expr(sid))) for sid in x.switches())
+            head_cmp = False
+            for sid in x.switches():
+                e = g.strip(g.switch_expr(sid))
+                if e[0] == 'bin' and e[1] in ('Ne', 'Eq') and any(a.on('MultiQueue.head/') for a in x.loads_in(e)):
+                    l, r = g.strip(e[2]), g.strip(e[3])
+                    # the range test compares the two raw position counts (same domain as head): no masking / arithmetic
+                    if l[0] == 'call' and r[0] == 'call' and x.rep(l[1]) in x.atoms and x.rep(r[1]) in x.atoms:
+                        head_cmp = True
             ok = bool(dips) and src_ok and head_cmp and len(ops) == len(dips)
             ctx.add('P13c', 'T-GUARD', dq, ok, 'move-out teardown destroys the slots from last_pos up to head' if ok else
-                    'move-out teardown: drop_in_place present=%s, starts at last_pos=%s, bounded by head=%s, no other payload op=%s' % (bool(dips), src_ok, head_cmp, len(ops) == len(dips)),
+                    'move-out teardown: drop_in_place present=%s, starts at last_pos=%s, loop bounded by comparing the raw position count with head (unmasked)=%s, no other payload op=%s' % (bool(dips), src_ok, head_cmp, len(ops) == len(dips)),
                     flavour=fl, sub='mpmc')
